@@ -39,7 +39,7 @@ $(BUILD)/obj-$(1)/%.o: src/%.cpp | lib-$(1)
 	$(CXX) -std=c++17 $(2) -Wall -Wno-unused-function -Wno-sign-compare -MMD -MP $(call INCS,$(1)) -c $$< -o $$@
 
 $(BUILD)/vx-$(1): $(patsubst src/%.cpp,$(BUILD)/obj-$(1)/%.o,$(HSRC)) $(BUILD)/lib-$(1)/libdjinterop.a
-	$(CXX) $(2) -o $$@ $(patsubst src/%.cpp,$(BUILD)/obj-$(1)/%.o,$(HSRC)) $(BUILD)/lib-$(1)/libdjinterop.a -lsqlite3 -lz -ldl -lpthread
+	$(CXX) $(2) -o $$@ $(patsubst src/%.cpp,$(BUILD)/obj-$(1)/%.o,$(HSRC)) $(BUILD)/lib-$(1)/libdjinterop.a -rdynamic -lsqlite3 -lz -ldl -lpthread
 
 -include $(patsubst src/%.cpp,$(BUILD)/obj-$(1)/%.d,$(HSRC))
 endef
